@@ -184,4 +184,130 @@ __CPROVER_ensures(RV == (conn->rd_discard > 0 ? NNG_EAGAIN : NNG_OK))
 __CPROVER_ensures(g_parse_calls == OLD(g_parse_calls) && aio->a_count == OLD(aio->a_count) && aio->a_nio == OLD(aio->a_nio))
 #endif
 ;
+
+/* ======================================================================= cancel (C02) */
+#define CC ((nni_http_conn *) arg)
+/* the aio under test is on at most one queue, and the queue model agrees with it */
+#define HC_X_OK(q) ((!(q).has_x || (q).n >= 1) && (((q).n >= 1 && (q).head == g_the_aio) ==> (q).has_x) && (((q).n >= 2 && (q).next == g_the_aio) ==> (q).has_x) && (((q).n == 1 && (q).has_x) ==> (q).head == g_the_aio))
+#define HC_CANCEL_PRE (__CPROVER_is_fresh(arg, sizeof(nni_http_conn)) && HC_LISTS_PRE(CC) && VP_NO_LOCK_HELD && aio != NULL && g_the_aio == aio && HC_Q_OK(g_rdq) && HC_Q_OK(g_wrq) && HC_X_OK(g_rdq) && HC_X_OK(g_wrq))
+#define HC_ABORTED(wire, rv) (g_abort_calls == OLD(g_abort_calls) + 1 && g_abort_aio == (wire) && g_abort_rv == (int) (rv))
+#define HC_ABORT_GHOSTS g_abort_calls, g_abort_aio, g_abort_rv
+
+static void http_rd_cancel(nni_aio *aio, void *arg, nng_err rv)
+__CPROVER_requires(HC_CANCEL_PRE)
+/* a read operation: current, or waiting in the read queue, or already completed -- never two of these */
+__CPROVER_requires(!g_wrq.has_x && CC->wr_uaio != aio && !(CC->rd_uaio == aio && g_rdq.has_x))
+__CPROVER_assigns(CC->rd_uaio, g_rdq, HC_FIN_GHOSTS, HC_ABORT_GHOSTS, VP_SYNC_GHOSTS)
+__CPROVER_ensures(VP_NO_LOCK_HELD && g_wrq.n == OLD(g_wrq.n))
+/* current operation: detached (so the read callback cannot complete it again), completed once with rv, the wire read aborted with rv */
+__CPROVER_ensures(OLD(CC->rd_uaio) == aio ==> (CC->rd_uaio == NULL && HC_FIN_IS(aio, rv, 0) && HC_ABORTED(&CC->rd_aio, rv) && g_rdq.n == OLD(g_rdq.n)))
+/* queued operation: taken off the queue, completed once with rv; the operation in flight is not disturbed */
+__CPROVER_ensures((OLD(CC->rd_uaio) != aio && OLD(g_rdq.has_x)) ==> (HC_FIN_IS(aio, rv, 0) && g_rdq.n == OLD(g_rdq.n) - 1 && !g_rdq.has_x && CC->rd_uaio == OLD(CC->rd_uaio) && g_abort_calls == OLD(g_abort_calls)))
+/* already completed: nothing happens (no second completion, no code reported) */
+__CPROVER_ensures((OLD(CC->rd_uaio) != aio && !OLD(g_rdq.has_x)) ==> (HC_NO_FIN && g_rdq.n == OLD(g_rdq.n) && CC->rd_uaio == OLD(CC->rd_uaio) && g_abort_calls == OLD(g_abort_calls)))
+;
+
+static void http_wr_cancel(nni_aio *aio, void *arg, nng_err rv)
+__CPROVER_requires(HC_CANCEL_PRE)
+__CPROVER_requires(!g_rdq.has_x && CC->rd_uaio != aio && !(CC->wr_uaio == aio && g_wrq.has_x))
+__CPROVER_assigns(CC->wr_uaio, g_wrq, HC_FIN_GHOSTS, HC_ABORT_GHOSTS, VP_SYNC_GHOSTS)
+__CPROVER_ensures(VP_NO_LOCK_HELD && g_rdq.n == OLD(g_rdq.n))
+__CPROVER_ensures(OLD(CC->wr_uaio) == aio ==> (CC->wr_uaio == NULL && HC_FIN_IS(aio, rv, 0) && HC_ABORTED(&CC->wr_aio, rv) && g_wrq.n == OLD(g_wrq.n)))
+__CPROVER_ensures((OLD(CC->wr_uaio) != aio && OLD(g_wrq.has_x)) ==> (HC_FIN_IS(aio, rv, 0) && g_wrq.n == OLD(g_wrq.n) - 1 && !g_wrq.has_x && CC->wr_uaio == OLD(CC->wr_uaio) && g_abort_calls == OLD(g_abort_calls)))
+__CPROVER_ensures((OLD(CC->wr_uaio) != aio && !OLD(g_wrq.has_x)) ==> (HC_NO_FIN && g_wrq.n == OLD(g_wrq.n) && CC->wr_uaio == OLD(CC->wr_uaio) && g_abort_calls == OLD(g_abort_calls)))
+;
+
+/* ======================================================================= write side (C01) */
+/* who is current after a start: the one that was, else the head of the queue */
+#define W_CUR (OLD(conn->wr_uaio) != NULL ? OLD(conn->wr_uaio) : OLD(g_wrq.head))
+static void http_wr_start(nni_http_conn *conn)
+__CPROVER_requires(__CPROVER_is_fresh(conn, sizeof(*conn)) && HC_LISTS_PRE(conn))
+__CPROVER_requires(conn->wr_uaio == NULL || (__CPROVER_is_fresh(conn->wr_uaio, sizeof(nni_aio)) && conn->wr_uaio->a_nio <= VIOV_MAX))
+__CPROVER_requires(g_wrq.n == 0 || (__CPROVER_is_fresh(g_wrq.head, sizeof(nni_aio)) && g_wrq.head->a_nio <= VIOV_MAX))
+/* (queue shape stated AFTER the is_fresh clauses: is_fresh re-points the head) */
+__CPROVER_requires(HC_Q_OK(g_wrq))
+__CPROVER_assigns(conn->wr_uaio, g_wrq, HC_IOV_OF(conn->wr_aio), HC_IO_GHOSTS)
+/* nothing to write: nothing happens */
+__CPROVER_ensures((OLD(conn->wr_uaio) == NULL && OLD(g_wrq.n) == 0) ==> (conn->wr_uaio == NULL && HC_NO_IO && g_wrq.n == 0))
+/* otherwise the current (else the FIRST queued) operation is in flight with its whole vector */
+__CPROVER_ensures((OLD(conn->wr_uaio) != NULL || OLD(g_wrq.n) > 0) ==> (conn->wr_uaio == W_CUR && HC_SEND_ARMED(conn) && g_wrq.n == OLD(g_wrq.n) - (OLD(conn->wr_uaio) == NULL ? 1u : 0u)))
+__CPROVER_ensures((OLD(conn->wr_uaio) != NULL || OLD(g_wrq.n) > 0) ==> (conn->wr_aio.a_nio == conn->wr_uaio->a_nio))
+__CPROVER_ensures(((OLD(conn->wr_uaio) != NULL || OLD(g_wrq.n) > 0) && g_j < conn->wr_aio.a_nio) ==> (conn->wr_aio.a_iov[g_j & 7u].iov_buf == conn->wr_uaio->a_iov[g_j & 7u].iov_buf && conn->wr_aio.a_iov[g_j & 7u].iov_len == conn->wr_uaio->a_iov[g_j & 7u].iov_len))
+;
+
+/* the vector in flight (<= 3 entries in this unit): prefix sums / total / dropped-entry count */
+#define W_RV   OLD(CC->wr_aio.a_result)
+#define W_N    OLD(CC->wr_aio.a_count)
+#define W_NIO  OLD(CC->wr_aio.a_nio)
+#define W_L(i) ((i) < W_NIO ? OLD(CC->wr_aio.a_iov[i].iov_len) : (size_t) 0)
+#define W_P1   (W_L(0))
+#define W_P2   (W_P1 + W_L(1))
+#define W_TOT  (W_P2 + W_L(2))
+#define W_PJ(j) ((j) == 0 ? (size_t) 0 : (j) == 1 ? W_P1 : (j) == 2 ? W_P2 : W_TOT)
+#define W_DROP ((W_N == 0 || W_N < W_P1) ? 0u : (W_N == W_P1 || W_N < W_P2) ? VP_MIN(1u, W_NIO) : (W_N == W_P2 || W_N < W_TOT) ? VP_MIN(2u, W_NIO) : W_NIO)
+#define W_CL(i) ((i) < CC->wr_aio.a_nio ? CC->wr_aio.a_iov[i].iov_len : (size_t) 0)
+#define W_CTOT ((W_CL(0) + W_CL(1)) + W_CL(2))
+#define W_UAIO OLD(CC->wr_uaio)
+#define W_OK   (W_RV == 0 && W_UAIO != NULL)
+#define W_FULL (CC->wr_flavor != HTTP_WR_RAW)
+/* the user operation is complete: RAW after the first write, the others when everything is written */
+#define W_DONE (W_OK && (!W_FULL || W_N == W_TOT))
+#define W_PART (W_OK && W_FULL && W_N < W_TOT)
+#define W_NEXT_STARTED (OLD(g_wrq.n) > 0 ? (CC->wr_uaio == OLD(g_wrq.head) && g_wrq.n == OLD(g_wrq.n) - 1 && HC_SEND_ARMED(CC)) : (CC->wr_uaio == NULL && HC_NO_IO))
+static void http_wr_cb(void *arg)
+__CPROVER_requires(__CPROVER_is_fresh(arg, sizeof(nni_http_conn)) && HC_LISTS_PRE(CC) && VP_NO_LOCK_HELD)
+__CPROVER_requires(CC->wr_uaio == NULL || __CPROVER_is_fresh(CC->wr_uaio, sizeof(nni_aio)))
+__CPROVER_requires(g_wrq.n == 0 || (__CPROVER_is_fresh(g_wrq.head, sizeof(nni_aio)) && g_wrq.head->a_nio <= VIOV_MAX))
+__CPROVER_requires(HC_Q_OK(g_rdq) && HC_Q_OK(g_wrq))
+/* the vector in flight: up to three entries (buffer positions are opaque here: the callback never looks through them) */
+__CPROVER_requires(CC->wr_aio.a_nio <= 3 && W_CL(0) <= VIOV_LENMAX && W_CL(1) <= VIOV_LENMAX && W_CL(2) <= VIOV_LENMAX)
+/* ASSUMED about the stream layer: a successful completion reports at most what was asked for */
+__CPROVER_requires(CC->wr_aio.a_result != 0 || CC->wr_aio.a_count <= W_CTOT)
+__CPROVER_assigns(CC->wr_uaio, CC->closed, CC->rd_uaio, g_rdq, g_wrq, HC_IOV_OF(CC->wr_aio), HC_FIN_GHOSTS, HC_IO_GHOSTS, HC_CLOSE_GHOSTS, VP_SYNC_GHOSTS)
+__CPROVER_assigns(CC->wr_uaio != NULL: CC->wr_uaio->a_count)
+__CPROVER_ensures(VP_NO_LOCK_HELD)
+/* failed write: the operation in flight gets that error, the connection is closed (everything else pending is refused, see http_close) */
+__CPROVER_ensures(W_RV != 0 ==> (CC->closed && CC->wr_uaio == NULL && HC_NO_IO))
+__CPROVER_ensures((W_RV != 0 && OLD(CC->closed)) ==> (W_UAIO != NULL ? HC_FIN_IS(W_UAIO, W_RV, 0) : HC_NO_FIN))
+__CPROVER_ensures((W_RV != 0 && !OLD(CC->closed)) ==> (g_fin_calls == (((OLD(g_fin_calls) + (W_UAIO != NULL ? 1u : 0u)) + (OLD(CC->rd_uaio) != NULL ? 1u : 0u)) + OLD(g_wrq.n)) + OLD(g_rdq.n)))
+/* the operation was cancelled meanwhile: the completion is dropped, nothing is completed or started */
+__CPROVER_ensures((W_RV == 0 && W_UAIO == NULL) ==> (HC_NO_FIN && HC_NO_IO && CC->wr_uaio == NULL && g_wrq.n == OLD(g_wrq.n)))
+/* n more bytes are accounted to the operation */
+__CPROVER_ensures(W_OK ==> W_UAIO->a_count == OLD(CC->wr_uaio->a_count) + W_N)
+/* partial write of a FULL / REQ / RES operation: exactly the remaining bytes are resubmitted (entries used up dropped in order,
+ * the first survivor loses its written front, later ones unchanged); nothing completes */
+__CPROVER_ensures(W_PART ==> (HC_SEND_ARMED(CC) && HC_NO_FIN && CC->wr_uaio == W_UAIO && g_wrq.n == OLD(g_wrq.n)))
+__CPROVER_ensures(W_PART ==> (CC->wr_aio.a_nio == W_NIO - W_DROP && CC->wr_aio.a_nio >= 1))
+__CPROVER_ensures((W_PART && g_n == W_DROP && g_n < 3) ==> (CC->wr_aio.a_iov[0].iov_len == OLD(CC->wr_aio.a_iov[g_n & 3u].iov_len) - (W_N - W_PJ(g_n)) && (W_N == W_PJ(g_n) ? CC->wr_aio.a_iov[0].iov_buf == OLD(CC->wr_aio.a_iov[g_n & 3u].iov_buf) : (char *) CC->wr_aio.a_iov[0].iov_buf == (char *) OLD(CC->wr_aio.a_iov[g_n & 3u].iov_buf) + (W_N - W_PJ(g_n)))))
+__CPROVER_ensures((W_PART && g_j >= 1 && g_j < CC->wr_aio.a_nio && g_n == g_j + W_DROP && g_n < 3) ==> (CC->wr_aio.a_iov[g_j & 3u].iov_len == OLD(CC->wr_aio.a_iov[g_n & 3u].iov_len) && CC->wr_aio.a_iov[g_j & 3u].iov_buf == OLD(CC->wr_aio.a_iov[g_n & 3u].iov_buf)))
+/* complete: completed exactly once, result 0, count = everything accounted to it; the next queued write (if any) is started */
+__CPROVER_ensures(W_DONE ==> (HC_FIN_IS(W_UAIO, 0, W_UAIO->a_count) && W_NEXT_STARTED))
+;
+
+/* ======================================================================= submit (C02) */
+#define S_REFUSED(aio, code) (HC_FIN_IS(aio, code, 0) && g_app_item == OLD(g_app_item) && HC_NO_IO)
+static void http_wr_submit(nni_http_conn *conn, nni_aio *aio, enum write_flavor flavor)
+__CPROVER_requires(__CPROVER_is_fresh(conn, sizeof(*conn)) && __CPROVER_is_fresh(aio, sizeof(nni_aio)) && aio->a_nio <= VIOV_MAX && HC_LISTS_PRE(conn))
+__CPROVER_requires(conn->wr_uaio == NULL || (__CPROVER_is_fresh(conn->wr_uaio, sizeof(nni_aio)) && conn->wr_uaio->a_nio <= VIOV_MAX))
+__CPROVER_requires(g_wrq.n == 0 || (__CPROVER_is_fresh(g_wrq.head, sizeof(nni_aio)) && g_wrq.head->a_nio <= VIOV_MAX))
+__CPROVER_requires(HC_Q_OK(g_wrq))
+/* a new operation: not current, not queued */
+__CPROVER_requires(g_the_aio == aio && !g_wrq.has_x && !g_rdq.has_x && conn->wr_uaio != aio && (g_wrq.n == 0 || g_wrq.head != aio) && (g_wrq.n < 2 || g_wrq.next != aio))
+__CPROVER_assigns(conn->wr_flavor, conn->wr_uaio, g_wrq, g_app_list, g_app_item, HC_IOV_OF(conn->wr_aio), HC_IO_GHOSTS, HC_FIN_GHOSTS, g_start_calls, g_start_aio, g_start_fn, g_start_arg)
+__CPROVER_assigns(aio->a_result, aio->a_count, aio->a_abort, aio->a_expire_ok, aio->a_sleep, aio->a_skipped_callback, __CPROVER_object_upto(&aio->a_outputs[0], sizeof(aio->a_outputs)))
+__CPROVER_ensures(aio->a_count == 0 && aio->a_result == NNG_OK)
+/* closed connection: refused once with NNG_ECLOSED, never queued, never started */
+__CPROVER_ensures(conn->closed ==> (S_REFUSED(aio, NNG_ECLOSED) && g_start_calls == OLD(g_start_calls) && g_wrq.n == OLD(g_wrq.n) && conn->wr_uaio == OLD(conn->wr_uaio)))
+/* the aio layer refused the start (it has completed the aio itself): not queued, not completed a second time */
+__CPROVER_ensures((!conn->closed && !g_start_ok) ==> (g_start_calls == OLD(g_start_calls) + 1 && g_fin_calls == OLD(g_fin_calls) + 1 && g_fin_last == aio && g_app_item == OLD(g_app_item) && HC_NO_IO && g_wrq.n == OLD(g_wrq.n) && conn->wr_uaio == OLD(conn->wr_uaio) && conn->wr_flavor == OLD(conn->wr_flavor)))
+/* accepted: cancellable through http_wr_cancel, appended BEHIND what is already waiting, not completed */
+__CPROVER_ensures((!conn->closed && g_start_ok) ==> (g_start_calls == OLD(g_start_calls) + 1 && g_start_aio == aio && g_start_fn == http_wr_cancel && g_start_arg == (void *) conn && g_app_list == &conn->wrq && g_app_item == aio && HC_NO_FIN))
+/* ... and started at once iff nothing is in flight */
+__CPROVER_ensures((!conn->closed && g_start_ok && OLD(conn->wr_uaio) != NULL) ==> (conn->wr_uaio == OLD(conn->wr_uaio) && g_wrq.n == OLD(g_wrq.n) + 1 && HC_NO_IO))
+__CPROVER_ensures((!conn->closed && g_start_ok && OLD(conn->wr_uaio) == NULL) ==> (conn->wr_uaio == (OLD(g_wrq.n) > 0 ? OLD(g_wrq.head) : aio) && g_wrq.n == OLD(g_wrq.n) && HC_SEND_ARMED(conn) && conn->wr_flavor == flavor))
+#ifdef HC_FLAVOR_PER_OP
+/* C01: how the operation IN FLIGHT completes (all bytes / first write) must not change because another one is queued */
+__CPROVER_ensures(OLD(conn->wr_uaio) != NULL ==> conn->wr_flavor == OLD(conn->wr_flavor))
+#endif
+;
 #endif
